@@ -638,6 +638,27 @@ macro_rules! coll_runner {
                 let sub: $Sub = if incremental { obs.subscribe_incremental(BIG) } else { obs.subscribe(BIG) };
                 let mut ref_sub: $Sub = obs.subscribe(BIG);
                 let mut hand: $Std = ref_sub.take_initial().unwrap_or_default();
+                // a second hand-made replica fed by an incremental subscription whose first receive calls are dropped
+                // after one poll (receiving is resumable: a dropped receive call must lose nothing)
+                let mut inc_sub: $Sub = obs.subscribe_incremental(BIG);
+                let mut inc_hand: $Std = Default::default();
+                let mut inc_err: Option<String> = None;
+                let inc_cancels = rng.below(4);
+                for _ in 0..inc_cancels {
+                    match crate::sched::CancelAt::new(inc_sub.recv(), 1).await {
+                        Some(Ok(Some(ev))) => {
+                            if let Err(e) = $applyfn(&mut inc_hand, ev) {
+                                inc_err = Some(e);
+                            }
+                        }
+                        Some(Ok(None)) => break,
+                        Some(Err(e)) => {
+                            inc_err = Some(e.to_string());
+                            break;
+                        }
+                        None => {}
+                    }
+                }
                 let mut net_keep = None;
                 let mut mirror = match locality {
                     Locality::Local => sub.mirror(BIG),
@@ -688,7 +709,7 @@ macro_rules! coll_runner {
                 let mut hand_err = None;
                 loop {
                     use futures::FutureExt;
-                    match ref_sub.recv().now_or_never() {
+                    match tokio::task::unconstrained(ref_sub.recv()).now_or_never() {
                         Some(Ok(Some(ev))) => match $applyfn(&mut hand, ev) {
                             Ok(d) => hand_done |= d,
                             Err(e) => {
@@ -704,7 +725,28 @@ macro_rules! coll_runner {
                         None => break,
                     }
                 }
+                loop {
+                    use futures::FutureExt;
+                    if inc_err.is_some() {
+                        break;
+                    }
+                    match tokio::task::unconstrained(inc_sub.recv()).now_or_never() {
+                        Some(Ok(Some(ev))) => {
+                            if let Err(e) = $applyfn(&mut inc_hand, ev) {
+                                inc_err = Some(e);
+                            }
+                        }
+                        Some(Ok(None)) => break,
+                        Some(Err(e)) => inc_err = Some(e.to_string()),
+                        None => break,
+                    }
+                }
                 let mut bad: Vec<(String, String)> = Vec::new();
+                if let Some(e) = &inc_err {
+                    bad.push((format!("C13:{}:incremental-event-stream-error", $name), format!("consuming an incremental subscription by hand ({inc_cancels} receive calls dropped after one poll) failed: {e}")));
+                } else if inc_hand != truth && !retain_mutated {
+                    bad.push((format!("C13:{}:incremental-event-stream-differs", $name), format!("an incremental subscription consumed by hand ({inc_cancels} receive calls dropped after one poll) gives {inc_hand:?}, the collection holds {truth:?}")));
+                }
                 if let Some(e) = hand_err {
                     bad.push((format!("C13:{}:event-stream-error", $name), format!("consuming the event stream by hand failed: {e}")));
                 } else if hand != truth {
@@ -855,7 +897,7 @@ macro_rules! coll_runner {
                     // bring the reference up to date (per event)
                     loop {
                         use futures::FutureExt;
-                        match ref_sub.recv().now_or_never() {
+                        match tokio::task::unconstrained(ref_sub.recv()).now_or_never() {
                             Some(Ok(Some(ev))) => {
                                 let _ = $applyfn(&mut cur, ev);
                                 max_len_seen = max_len_seen.max(cur.len());
